@@ -464,6 +464,10 @@ C04_BLE_LAYERS = [Layer("ble-fragment-abort", run_c04_ble_abort, enumerate=enum_
 
 
 # ---------------------------------------------------------------- C01: pair-verify through BlePairing (full, resumed, faulty)
+class _Served(Exception):
+    pass
+
+
 def run_c01_ble(case, R):
     fault = case["fault"]
     R.nt(fault != "none" or case.get("reconnects", 0) > 0)
@@ -490,6 +494,10 @@ def run_c01_ble(case, R):
                     return [(t, (v[:-1] + bytes([v[-1] ^ 1])) if t == 5 else v) for t, v in items]
                 if fault == "error-m4" and stage == "m4":
                     return [(T_STATE, b"\x04"), (T_ERROR, b"\x02")]
+                if fault == "resume-error" and stage == "m2" and pv.resumed:
+                    # a peer that knows nothing (no long-term key, no earlier session) refuses the resume with an error item: six plaintext bytes
+                    pv.resumed = False
+                    return [(T_STATE, b"\x02"), (T_ERROR, bytes([case.get("code", 2)]))]
                 return items
             w.acc.verify_fault = vf
             what = f"BLE verify fault={fault} case={case}"
@@ -556,12 +564,25 @@ def run_c01_ble(case, R):
                 armed[0] = fault != "none" and case.get("fault_on_resume")
                 await w.client.disconnect()
                 resumed_before = w.acc.resumed_sessions
+                full_before = w.acc.sessions_established
+                plain_before = len(w.acc.requests)
                 try:
                     r = await p.put_characteristics([(1, 11, 5 + n)])
+                    if armed[0] and fault == "resume-error":
+                        raise _Served()
                     r2 = await p.get_characteristics([(1, 11)])
                     out = ("ok", r2)
+                except _Served:
+                    out = ("ok", r)
                 except Exception as e:  # noqa: BLE001
                     out = ("raise", e)
+                if armed[0] and fault == "resume-error":
+                    # the operation may fail, or go through after a *full* pair-verify; it must not be served on a link without a session
+                    served_plain = [r_ for r_ in w.acc.requests[plain_before:] if r_[0] not in (2, 3, 4, 5) and r_[1] in (2, 3)]
+                    if (out[0] == "ok" and w.acc.sessions_established == full_before) or (served_plain and w.acc.sessions_established == full_before):
+                        R.fail("C01.forged-reply-accepted", f"{what}: the resume was refused with error {case.get('code', 2)} by a peer that proved nothing; the operation was carried on "
+                                                            f"without a session ({out[0]}; {len(served_plain)} plaintext request(s) reached the peer)", family="ble-resume-refused-then-plain")
+                    return
                 if armed[0]:
                     # a resume reply with a bad tag must not yield a session under the resumed keys
                     if out[0] == "ok" and w.acc.resumed_sessions > resumed_before and w.acc.sessions_established == 2 + n and fault == "resume-bad-tag":
@@ -591,6 +612,8 @@ def enum_c01_ble(tier):
         yield {"fault": f}
         yield {"fault": f, "pieces": 30}
     yield {"fault": "resume-bad-tag", "fault_on_resume": True, "reconnects": 1}
+    for code in (1, 2, 3, 4, 5, 6, 7):
+        yield {"fault": "resume-error", "fault_on_resume": True, "reconnects": 1, "code": code}
     for att in (23, 155):
         yield {"fault": "none", "impostor": "close", "att": att}
         yield {"fault": "none", "impostor": "locked", "att": att}
